@@ -1,9 +1,12 @@
 package vh
 
 import (
+	"bytes"
 	"fmt"
 	"net"
 	"os"
+	"strings"
+	"sync/atomic"
 	"sync"
 	"syscall"
 	"testing"
@@ -23,7 +26,7 @@ type c08Case struct {
 	Connect string `json:"connect"` // "" both producers connected | sshd_only | audit_only | none (for signals / EOF of the connected pipe)
 }
 
-var c08Causes = []string{"sshd_eof", "audit_eof", "malformed_audit", "malformed_audit_then_login", "audit_eof_then_login", "write_error",
+var c08Causes = []string{"sshd_eof", "audit_eof", "malformed_audit", "malformed_audit_huge", "malformed_audit_then_login", "audit_eof_then_login", "write_error", "write_error_after_start",
 	"sshd_not_fifo:regular", "sshd_not_fifo:missing", "sshd_not_fifo:dir",
 	"audit_not_fifo:regular", "audit_not_fifo:missing", "audit_not_fifo:dir", "sigterm", "sigint"}
 
@@ -65,6 +68,8 @@ func execC08(c c08Case) Outcome {
 		o.AudPath = "dir"
 	case "write_error":
 		o.Output = "devfull"
+	case "write_error_after_start":
+		o.Output = "fifo"
 	}
 	switch c.Flags {
 	case "audit-metrics":
@@ -88,6 +93,28 @@ func execC08(c c08Case) Outcome {
 	d := startDaemon(o)
 	defer d.cleanup()
 	labels := []string{"cause:" + c.Cause, "load:" + c.Load, "flags:" + c.Flags}
+	// events output as a FIFO read by the harness: closing the read end later
+	// makes every further event write fail (EPIPE)
+	var outR *os.File
+	var outN int64
+	if o.Output == "fifo" {
+		f, e := os.OpenFile(d.outPath, os.O_RDONLY, 0)
+		if e != nil {
+			panic(&infraError{e.Error()})
+		}
+		outR = f
+		go func() {
+			buf := make([]byte, 65536)
+			for {
+				n, err := f.Read(buf)
+				atomic.AddInt64(&outN, int64(bytes.Count(buf[:n], []byte{'\n'})))
+				if err != nil {
+					return
+				}
+			}
+		}()
+		defer outR.Close()
+	}
 	misconfig := isMisconfig(c.Cause)
 
 	var sw, aw *os.File
@@ -205,6 +232,38 @@ func execC08(c c08Case) Outcome {
 			for i := 0; i < 3; i++ {
 				fmt.Fprintf(sw, "%d Accepted password for late%d from 1.2.3.4 port 22 ssh2\n", 7000+i, i)
 				time.Sleep(time.Duration(c.DelayMs/3) * time.Millisecond)
+			}
+		case "malformed_audit_huge":
+			// an unparsable line longer than any internal buffer
+			huge := "type=EXECVE msg=audit(BROKEN): argc=1 a0=" + strings.Repeat("A", 70*1024+c.Prefix) + "\n"
+			if c.Load == "saturated" {
+				w2, e := d.openWriter(d.audPipe)
+				if e != nil {
+					panic(&infraError{e.Error()})
+				}
+				defer w2.Close()
+				go func() { _, _ = w2.Write([]byte(huge)) }()
+			} else {
+				go func() { _, _ = aw.Write([]byte(huge)) }()
+			}
+		case "write_error_after_start":
+			// a correlated session is established and its first events are written;
+			// then the output breaks while kernel events of the session are in flight
+			fmt.Fprintf(sw, "6001 Accepted password for w from 1.2.3.4 port 22 ssh2\n")
+			fmt.Fprintln(aw, audEventForOp(800, hop{K: "open", S: 77, P: 4001}).Lines[0])
+			if !waitUntil(20*time.Second, func() bool { return atomic.LoadInt64(&outN) >= int64(4*c.Prefix+2) }) {
+				panic(&infraError{"session not correlated: " + tailStr(d.stderrText(), 400)})
+			}
+			outR.Close()
+			for i := 0; i < 4+c.Prefix; i++ {
+				ae := audEventForOp(901+i, hop{K: "ev", S: 77, T: "SYSCALL", P: 4001})
+				fmt.Fprintln(aw, ae.Lines[0]) // SYSCALL record only: the event stays incomplete
+			}
+			// a complete event with a LOWER sequence number (out-of-order arrival): it is
+			// delivered at once, its write fails, and the incomplete events above are
+			// still in flight when the audit processor stops
+			for _, l := range audEventForOp(850, hop{K: "ev", S: 77, T: "USER_START", P: 4001}).Lines {
+				fmt.Fprintln(aw, l)
 			}
 		case "write_error":
 			fmt.Fprintf(sw, "4242 Accepted password for u from 1.2.3.4 port 22 ssh2\n")
